@@ -230,6 +230,14 @@ def inlined_view(prog, root):
                 blocks.append(marker)
                 scratch = len(locals_)
                 locals_.append(g.locals[0])
+                if isinstance(nt.get("to"), int) and nt.get("dst"):
+                    # the value the body computed is what the call returns: data flow reaches the destination
+                    post = {"cleanup": nb.get("cleanup", False), "idom": None,
+                            "stmts": [{"l": nt.get("l", 0), "x": True, "dst": list(nt["dst"]), "rv": {"r": "use", "o": [{"m": [scratch]}]}}],
+                            "term": {"t": "goto", "to": nt["to"]}}
+                    marker["term"]["to"] = len(blocks)
+                    blocks.append(post)
+                    origins.append(origins[bi])
                 entry = copy_fn(g, glb, gpb, stack + [g.id], midx, [scratch], nt.get("unwind"), False)
                 pblk["term"] = {"t": "goto", "to": entry}
                 nb["term"] = {"t": "goto", "to": pidx}
